@@ -172,9 +172,10 @@ func ItemCollectionDeduplication(recCols ...*ItemCollection) ItemCollection {
 			}
 			for _, it := range rec {
 				if testIt.Equals(it.GetID(), false) {
-					// mark the element for removal
+					// mark the element for removal, once
 					toRemove = append(toRemove, i)
 					save = false
+					break
 				}
 			}
 			if save {
